@@ -1,21 +1,28 @@
 (* C02 -- tree transformations never change the value the tree computes.
-   Statements only; proofs are `exact <lemma of Proofs/TreeStateFacts.v>`.
-   Model: Model/TreeState.v (shared with C04).  Honest summary of what is and is not proved:
-   * proved for all states: every modelled composite that changes (children, index orders,
-     sliced_inds) -- remove_ind, restore_ind, sort_contraction_indices, reset_contraction_indices,
-     _reset_contraction_recipes -- leaves the compiled-contractor cache EMPTY or raises
-     (part (v) of the invariant: a contractor is never reused across such a change);
-   * the recipe invariant (iii)-(iv) is the decidable predicate [recipe_inv_b] of the model; it is
-     NOT proved to be preserved by the primitives.  It is evaluated inside Coq on EVERY state the
-     real tree reaches in the generated histories (harness/props/c02.py), together with the exact
-     replay of the primitive trace by the model;
-   * C02_history_value_conditional composes C01's theorem (hypothesis program_correct_hyp -- C01's
-     Model/Program.v is not part of this development yet) with the preservation step (hypothesis
-     prim_preserves_hyp, NOT proved): it only shows that these two facts are what is needed.
-   The end-to-end statement of C02 is judged on every run by the oracle: tree.contract on integer
-   arrays against the dense einsum after every step of every history. *)
+   Statements only; proofs are `exact <lemma of Proofs/TreeStateFacts.v / TreeStateValue.v>`.
+   Model: Model/TreeState.v (the mutable tree, shared with C04) + Model/TreeStateProg.v (the value
+   a state computes, read off its caches).  What is proved, and what is not:
+   * C02_state_value / C02_history_value_checked (NO hypothesis about C01 any more): a state that
+     passes the readiness check [contractible_b] -- children dict describes a complete tree t, every
+     node has a cached index order, leaves' = the order of their (pre-processed) arrays, root's = the
+     declared output, every internal order is a duplicate-free enumeration of the node's legs
+     (Program.admissible_b), preprocessing is exactly the from-scratch leaf simplifications, no
+     exception -- contracts, through the einsum path with THE ORDERS CACHED IN THE STATE (whatever
+     sort_contraction_indices made of them), to einsum_spec of the sliced/projected network in the
+     declared output order.  Proof: ProgramFacts.run_root_g_correct (C01) + admissible_b_sound.
+     C02_cached_equation_is_step ties the equation string cached on a node (recipe_inv_b) to the index
+     triple that semantics uses.  The tensordot path is covered by C01td only for the DEFAULT orders.
+   * NOT proved: that every state reachable by primitive traces is ready once extract_contractions has
+     run (preservation of the recipe invariant by the primitives).  Per run, [contractible_b] and
+     [recipe_inv_b] are evaluated inside Coq on the states the real tree reaches (harness/props/c02.py),
+     next to the exact replay of the primitive trace.
+   * the contractor-cache lemmas: remove_ind / restore_ind / sort_contraction_indices always end with
+     an empty compiled-contractor cache (or raise).
+   End to end C02 is judged on every run by the oracle (tree.contract vs the dense einsum). *)
 From Coq Require Import Lia.
-From Ctg Require Import Base Net BaseFacts NetFacts TreeState TreeStateFacts.
+From Ctg Require Import Base Net Einsum Program BaseFacts NetFacts ProgramFacts TreeState TreeStateFacts
+                        TreeStateProg TreeStateValue.
+Open Scope nat_scope.
 
 Theorem C02_remove_ind_invalidates_contractors : forall n ind pj s,
   cores (remove_ind n ind pj s) = [] \/ err (remove_ind n ind pj s) = true.
@@ -32,16 +39,37 @@ Theorem C02_sort_inds_invalidates_contractors : forall n pr a b c s,
 Proof. exact cores_sort_inds. Qed.
 Print Assumptions C02_sort_inds_invalidates_contractors.
 
-Theorem C02_history_value_conditional :
-  forall (n : net) (Value : Type) (contract_of : tstate -> Value) (einsum_of : list slinfo -> Value)
-         (Good : tstate -> Prop),
-  (forall s, Good s -> contract_of s = einsum_of (sliced s)) ->            (* program_correct_hyp *)
-  forall pre : prim -> tstate -> Prop,
-  (forall p s, Good s -> pre p s -> Good (step n p s)) ->                  (* prim_preserves_hyp *)
-  forall tr s0, Good s0 -> pre_trace n pre tr s0 ->
-  contract_of (run n tr s0) = einsum_of (sliced (run n tr s0)).
-Proof. exact history_value_conditional. Qed.
-Print Assumptions C02_history_value_conditional.
+Theorem C02_state_value : forall n s arr e0 l r, contractible_b n s (Node l r) = true ->
+  forall e, agree_removed (sliced s) e0 e ->
+  srun_root n s arr e0 (Node l r) (map e (filter (fun j => negb (memb j (removed (sliced s)))) (output n)))
+  = einsum_spec n (sliced s) arr e.
+Proof. exact state_value. Qed.
+Print Assumptions C02_state_value.
+
+(* the tree the value is computed along IS the one the children dict describes *)
+Theorem C02_contractible_tree : forall n s t, contractible_b n s t = true ->
+  tree_of (tfuel s) (children s) (seq 0 (NN n)) = Some t.
+Proof. exact contractible_tree. Qed.
+Print Assumptions C02_contractible_tree.
+
+Theorem C02_history_value_checked : forall n tr s0 arr e0 l r,
+  contractible_b n (run n tr s0) (Node l r) = true ->
+  forall e, agree_removed (sliced (run n tr s0)) e0 e ->
+  srun_root n (run n tr s0) arr e0 (Node l r)
+     (map e (filter (fun j => negb (memb j (removed (sliced (run n tr s0))))) (output n)))
+  = einsum_spec n (sliced (run n tr s0)) arr e.
+Proof. exact history_value_checked. Qed.
+Print Assumptions C02_history_value_checked.
+
+Theorem C02_cached_equation_is_step : forall n s l r i e x,
+  recipe_inv_b n s = true ->
+  In (node_of (Node l r), i) (info s) ->
+  nget (node_of (Node l r)) (children s) = Some (node_of l, node_of r) ->
+  rd i_inds s (node_of l) <> None -> rd i_inds s (node_of r) <> None ->
+  i_inds i = Some x -> i_eq i = Some e ->
+  e = einsum_eq_of (cinds s l) (cinds s r) x.
+Proof. exact cached_equation_is_step. Qed.
+Print Assumptions C02_cached_equation_is_step.
 
 (* non-vacuity: 'ab,bc,cd->da' (output order differs from the merge order).  Build, derive all
    recipes of the root, sort the indices, slice c, restore it: the recipe invariant holds at every
@@ -58,5 +86,10 @@ Example C02_nonvacuous :
   recipe_inv_b ex2 s0 = true /\ recipe_inv_b ex2 s1 = true /\ recipe_inv_b ex2 s2 = true
   /\ recipe_inv_b ex2 s3 = true /\ cost_inv_b ex2 s3 = true
   /\ rd i_inds s0 [0;1;2] = Some [3;0] /\ rd i_tdperm s0 [0;1;2] = Some (Some [1;0])
-  /\ cores s0 = [0] /\ cores s2 = [] /\ err s3 = false.
+  /\ cores s0 = [0] /\ cores s2 = [] /\ err s3 = false
+  (* readiness: after the recipes of every node have been derived (what extract_contractions does),
+     in the sorted state s1 and in the sliced state s2 alike *)
+  /\ contractible_b ex2 (run ex2 [PGet GEq [0;1;2]; PGet GEq [0;1]] s1) (Node (Node (Leaf 0) (Leaf 1)) (Leaf 2)) = true
+  /\ contractible_b ex2 (run ex2 [PGet GEq [0;1;2]; PGet GEq [0;1]] s2) (Node (Node (Leaf 0) (Leaf 1)) (Leaf 2)) = true
+  /\ contractible_b ex2 s2 (Node (Node (Leaf 0) (Leaf 1)) (Leaf 2)) = false.
 Proof. vm_compute. repeat split; reflexivity. Qed.
